@@ -33,7 +33,10 @@ impl IoDriver {
     pub(crate) async fn open(&self, path: impl AsRef<Path>) -> IOResult<File> {
         #[cfg(feature = "pearl_verif")]
         crate::verif::io::on_open(path.as_ref(), false)?;
-        File::from_file(path, |f| f.create(false).append(true).read(true)).await
+        // Not `append(true)`: in append mode the kernel ignores the offset of positional writes and always writes
+        // at the end of the file, so after a failed or partial write every later record would land at another
+        // position than the offset reserved for it (and stored in its header)
+        File::from_file(path, |f| f.create(false).write(true).read(true)).await
     }
 
     pub(crate) async fn create(&self, path: impl AsRef<Path>) -> IOResult<File> {
